@@ -14,30 +14,31 @@ Proof.
 Qed.
 
 (* ------------------------------------------------------------------ frame: each operation, then any sequence *)
-Lemma mstep_extends fx fe d r s o : fe = true \/ is_derive_edit o = false -> extends (fst s) (fst (fst (mstep_gen fx fe d r s o))).
+Lemma mstep_extends fx fe f98 d r s o : op_ok fe f98 o = true -> extends (fst s) (fst (fst (mstep_gen fx fe f98 d r s o))).
 Proof.
-  intros G. destruct s as [h b]. destruct o; cbn; try apply extends_refl; try apply deepcopy_heap_extends; try apply extends_app.
+  unfold op_ok. intros G. apply andb_true_iff in G as [G1 G2].
+  destruct s as [h b]. destruct o; cbn; try apply extends_refl; try apply deepcopy_heap_extends; try apply extends_app.
+  - destruct q; try apply extends_refl. destruct f98; [apply extends_refl|discriminate].
   - destruct (lookup h r) as [[| |ch es0]|]; cbn; try apply extends_refl. apply extends_app.
-  - destruct G as [->|G]; [|discriminate]. destruct (lookup h r) as [[| |ch es0]|]; cbn; try apply extends_refl.
+  - destruct fe; [|discriminate]. destruct (lookup h r) as [[| |ch es0]|]; cbn; try apply extends_refl.
     destruct (edges_update es0 s t upd); cbn; apply extends_app.
 Qed.
-Lemma mrun_extends fx fe d r : forall ops s, fe = true \/ no_derive_edit ops = true ->
-  extends (fst s) (fst (fst (mrun_gen fx fe d r s ops))).
+Lemma mrun_extends fx fe f98 d r : forall ops s, ops_ok fe f98 ops = true ->
+  extends (fst s) (fst (fst (mrun_gen fx fe f98 d r s ops))).
 Proof.
   induction ops as [|o ops IH]; intros s G; cbn; [apply extends_refl|].
-  assert (G1 : fe = true \/ is_derive_edit o = false /\ no_derive_edit ops = true).
-  { destruct G as [G|G]; [now left|right]. unfold no_derive_edit in *. cbn in G. apply negb_true_iff in G.
-    apply orb_false_iff in G as [G1 G2]. split; [assumption|now rewrite G2]. }
-  assert (Ho : fe = true \/ is_derive_edit o = false) by tauto. assert (Hr : fe = true \/ no_derive_edit ops = true) by tauto.
-  pose proof (mstep_extends fx fe d r s o Ho) as H1. destruct (mstep_gen fx fe d r s o) as [s1 out]. cbn in H1.
-  pose proof (IH s1 Hr) as H2. destruct (mrun_gen fx fe d r s1 ops) as [s2 outs]. cbn in *. eapply extends_trans; eauto.
+  cbn in G. apply andb_true_iff in G as [Ho Hr].
+  pose proof (mstep_extends fx fe f98 d r s o Ho) as H1. destruct (mstep_gen fx fe f98 d r s o) as [s1 out]. cbn in H1.
+  pose proof (IH s1 Hr) as H2. destruct (mrun_gen fx fe f98 d r s1 ops) as [s2 outs]. cbn in *. eapply extends_trans; eauto.
 Qed.
-Theorem frame_step fx fe d r s o : fe = true \/ is_derive_edit o = false ->
-  forall d' c t, abs d' (fst s) c = Some t -> abs d' (fst (fst (mstep_gen fx fe d r s o))) c = Some t.
+Theorem frame_step fx fe f98 d r s o : op_ok fe f98 o = true ->
+  forall d' c t, abs d' (fst s) c = Some t -> abs d' (fst (fst (mstep_gen fx fe f98 d r s o))) c = Some t.
 Proof. intros. eapply abs_extends; eauto. now apply mstep_extends. Qed.
-Theorem frame_sequence fx fe d r ops s : fe = true \/ no_derive_edit ops = true ->
-  forall d' c t, abs d' (fst s) c = Some t -> abs d' (fst (fst (mrun_gen fx fe d r s ops))) c = Some t.
+Theorem frame_sequence fx fe f98 d r ops s : ops_ok fe f98 ops = true ->
+  forall d' c t, abs d' (fst s) c = Some t -> abs d' (fst (fst (mrun_gen fx fe f98 d r s ops))) c = Some t.
 Proof. intros. eapply abs_extends; eauto. now apply mrun_extends. Qed.
+Lemma ops_ok_all_fixed ops : ops_ok true true ops = true.
+Proof. induction ops; cbn; auto. Qed.
 
 (* ------------------------------------------------------------------ outputs *)
 Lemma abs_root_edges d h r t : abs d h r = Some t -> exists ch, lookup h r = Some (OCirc ch (root_edges t)).
@@ -65,42 +66,39 @@ Proof.
   induction es as [|[[s' t'] a] es IH]; cbn; [reflexivity|]. destruct (String.eqb s s' && String.eqb t t'); [discriminate|].
   destruct (edges_update es s t upd); assumption.
 Qed.
-Lemma outputs_refine_fixed fe d r t : forall ops h, abs d h r = Some t -> fe = true \/ no_derive_edit ops = true ->
-  snd (mrun_gen true fe d r (h, book0) ops) = map (mstepS d t) ops.
+Lemma outputs_refine_fixed fe f98 d r t : forall ops h, abs d h r = Some t -> ops_ok fe f98 ops = true ->
+  snd (mrun_gen true fe f98 d r (h, book0) ops) = map (mstepS d t) ops.
 Proof.
   induction ops as [|o ops IH]; intros h H G; [reflexivity|]. cbn [mrun_gen map].
-  assert (G1 : fe = true \/ is_derive_edit o = false /\ no_derive_edit ops = true).
-  { destruct G as [G|G]; [now left|right]. unfold no_derive_edit in *. cbn in G. apply negb_true_iff in G.
-    apply orb_false_iff in G as [G1 G2]. split; [assumption|now rewrite G2]. }
-  assert (Hr : fe = true \/ no_derive_edit ops = true) by tauto.
+  cbn in G. apply andb_true_iff in G as [Go Hr]. unfold op_ok in Go. apply andb_true_iff in Go as [Go1 Go2].
   assert (Hd : abs d (deepcopy_heap d r h) r = Some t) by (eapply abs_extends; eauto; apply deepcopy_heap_extends).
   destruct o as [q| | |es|sv tv upd|o|jac vec|vec|]; cbn [mstep_gen].
-  - specialize (IH h H Hr). destruct (mrun_gen true fe d r (h, book0) ops). cbn in *. rewrite IH. now rewrite (read_equiv d r h t q H).
-  - specialize (IH h H Hr). destruct (mrun_gen true fe d r (h, book0) ops). cbn in *. now rewrite IH.
-  - specialize (IH _ Hd Hr). destruct (mrun_gen true fe d r (deepcopy_heap d r h, book0) ops). cbn in *. now rewrite IH.
+  - assert (Hq : (match q with QEdges => if f98 then h else collect_mut d h r | _ => h end) = h).
+    { destruct q; try reflexivity. destruct f98; [reflexivity|discriminate]. }
+    rewrite Hq. specialize (IH h H Hr). destruct (mrun_gen true fe f98 d r (h, book0) ops). cbn in *. rewrite IH. now rewrite (read_equiv d r h t q H).
+  - specialize (IH h H Hr). destruct (mrun_gen true fe f98 d r (h, book0) ops). cbn in *. now rewrite IH.
+  - specialize (IH _ Hd Hr). destruct (mrun_gen true fe f98 d r (deepcopy_heap d r h, book0) ops). cbn in *. now rewrite IH.
   - destruct (abs_root_edges _ _ _ _ H) as (ch & E). rewrite E. cbn iota beta.
     assert (He : abs d (h ++ [OCirc ch (root_edges t ++ es)]) r = Some t) by (eapply abs_extends; [exact H|apply extends_app]).
-    specialize (IH _ He Hr). unfold heap in *. match goal with |- context [mrun_gen ?f ?g ?a ?b ?c ?e] => destruct (mrun_gen f g a b c e) eqn:Em end.
+    specialize (IH _ He Hr). unfold heap in *. match goal with |- context [mrun_gen ?f ?g ?k ?a ?b ?c ?e] => destruct (mrun_gen f g k a b c e) eqn:Em end.
     try rewrite Em in IH. cbn in *. now rewrite IH.
-  - assert (fe = true) as -> by (destruct G1 as [?|[? _]]; [assumption|discriminate]).
+  - assert (fe = true) as -> by (destruct fe; [reflexivity|discriminate]).
     destruct (abs_root_edges _ _ _ _ H) as (ch & E). rewrite E. cbn iota beta.
     assert (He : abs d (h ++ [OCirc ch (root_edges t)]) r = Some t) by (eapply abs_extends; [exact H|apply extends_app]).
     specialize (IH _ He Hr). pose proof (first_edge_update (root_edges t) sv tv upd) as FE.
     destruct (edges_update (root_edges t) sv tv upd); unfold heap in *;
-      match goal with |- context [mrun_gen ?f ?g ?a ?b ?c ?e] => destruct (mrun_gen f g a b c e) eqn:Em end;
+      match goal with |- context [mrun_gen ?f ?g ?k ?a ?b ?c ?e] => destruct (mrun_gen f g k a b c e) eqn:Em end;
       try rewrite Em in IH; cbn in *; rewrite IH; destruct (first_edge (root_edges t) sv tv); congruence.
   - assert (He : abs d (h ++ [o]) r = Some t) by (eapply abs_extends; [exact H|apply extends_app]).
-    specialize (IH _ He Hr). unfold heap in *. match goal with |- context [mrun_gen ?f ?g ?a ?b ?c ?e] => destruct (mrun_gen f g a b c e) eqn:Em end.
+    specialize (IH _ He Hr). unfold heap in *. match goal with |- context [mrun_gen ?f ?g ?k ?a ?b ?c ?e] => destruct (mrun_gen f g k a b c e) eqn:Em end.
     try rewrite Em in IH. cbn in *. now rewrite IH.
-  - specialize (IH _ Hd Hr). destruct (mrun_gen true fe d r (deepcopy_heap d r h, book0) ops). cbn in *. now rewrite IH.
-  - specialize (IH _ Hd Hr). destruct (mrun_gen true fe d r (deepcopy_heap d r h, book0) ops). cbn in *. now rewrite IH.
-  - specialize (IH _ Hd Hr). destruct (mrun_gen true fe d r (deepcopy_heap d r h, book0) ops). cbn in *. rewrite IH.
+  - specialize (IH _ Hd Hr). destruct (mrun_gen true fe f98 d r (deepcopy_heap d r h, book0) ops). cbn in *. now rewrite IH.
+  - specialize (IH _ Hd Hr). destruct (mrun_gen true fe f98 d r (deepcopy_heap d r h, book0) ops). cbn in *. now rewrite IH.
+  - specialize (IH _ Hd Hr). destruct (mrun_gen true fe f98 d r (deepcopy_heap d r h, book0) ops). cbn in *. rewrite IH.
     now rewrite (observe_equiv d r h t [] [] H).
 Qed.
-Corollary outputs_refine_now d r t ops h : abs d h r = Some t -> no_derive_edit ops = true ->
+Corollary outputs_refine_head d r t ops h : abs d h r = Some t -> ops_ok fixed_shared_edge_dicts fixed_D98 ops = true ->
   snd (mrun d r (h, book0) ops) = map (mstepS d t) ops.
-Proof. intros H G. apply (outputs_refine_fixed fixed_shared_edge_dicts d r t ops h H). now right. Qed.
-Corollary outputs_refine_head d r t ops h : abs d h r = Some t -> snd (mrun d r (h, book0) ops) = map (mstepS d t) ops.
-Proof. intros H. apply (outputs_refine_fixed fixed_shared_edge_dicts d r t ops h H). now left. Qed.
-Corollary outputs_refine_all d r t ops h : abs d h r = Some t -> snd (mrun_gen true true d r (h, book0) ops) = map (mstepS d t) ops.
-Proof. intros H. apply (outputs_refine_fixed true d r t ops h H). now left. Qed.
+Proof. intros H G. exact (outputs_refine_fixed fixed_shared_edge_dicts fixed_D98 d r t ops h H G). Qed.
+Corollary outputs_refine_all d r t ops h : abs d h r = Some t -> snd (mrun_gen true true true d r (h, book0) ops) = map (mstepS d t) ops.
+Proof. intros H. apply (outputs_refine_fixed true true d r t ops h H). apply ops_ok_all_fixed. Qed.
